@@ -33,10 +33,13 @@ ImplRewards(ev, t) ==
     LET sh == ev.pre.shares[k] IN
       sh.share # "err" => Dec(st, t, sh.id) = MulFloor(sh.total, sh.share)
 
+Forwarded(pre) == pre.inflow -- MulFloor(pre.inflow, pre.take)
 EvChecks(ev, t) ==
   (CASE ev.ev = "newepoch" ->
-          IF ev.res = "ok" THEN NewEpochChecks(st, ev.pre.inflow, t)
-                                \o << <<"C10.newepoch.collector-forwards-its-balance", ev.out.received = ev.pre.inflow>>,
+          \* what the collector forwards: its balance of the distribution asset, minus the DAO's cut floor(take * balance)
+          \* when the take rate is switched on
+          IF ev.res = "ok" THEN NewEpochChecks(st, Forwarded(ev.pre), t)
+                                \o << <<"C10.newepoch.collector-forwards-its-balance", ev.out.received = Forwarded(ev.pre)>>,
                                       \* C10's own wording: what was transferred = the new epoch's total minus what was rolled over
                                       <<"C10.newepoch.transferred=new-total-minus-rolled-over",
                                          LET x == Expiring(st)
